@@ -122,6 +122,84 @@ CHECKS = {
              'parts disjoint) are stated in the evidence.',
         technique='Lean 4 proof (adapter logic + round trip under channel contracts) + differential correspondence with recording stand-ins + contract/end-to-end tests on the real libraries',
         design='§6 C20'),
+    'C03': dict(
+        text='Lean 4 theorems (real-number instance of the formulas executed as binary64): every un-rounded vertex generated for circles, '
+             'ellipses, rings and wedges lies on the defined curve (haversine distance = radius / radius_at_angle / inner, outer) in the '
+             'scheduled direction, for every k; the schedule is strictly decreasing (counter-clockwise) and the rings are closed; '
+             '_radius_at_angle is the polar ellipse between the semi-axes; the membership tests are the stated inequalities with holes removed.',
+        note='The 1e-7 degree rounding / 2 cm figure and "the polygon form encloses what the analytic test accepts outside the chord error" are '
+             'validated numerically only (exact even-odd test on the generated ring vs an independent oracle); contains_* is judged outside a '
+             '1e-6 relative boundary band. Every implementation vertex must be a correct 1e-7 degree rounding of the model un-rounded vertex.',
+        technique='Lean 4 proof over a generic numeric class (real instance for proofs, Float instance in the driver) + differential correspondence + independent geodesic oracle',
+        design='§6 C03'),
+    'C07': dict(
+        text='Lean 4 theorems over the real-number instance of the very formulas that are executed (as binary64) against calc.py: haversine is '
+             'symmetric, zero on identical points, within [0, pi R], blind to antimeridian un-wrapping and to common longitude shifts incl. '
+             're-wrapping, and equals R arccos of the unit-vector dot product (= dist_xyz_meters); the bearing lies in [0,360) for any '
+             'rounding; the un-rounded destination is at haversine distance exactly d and its bearing is the requested heading mod 360; '
+             'degree and radian entry coincide; rotation preserves planar distance and composes additively. R = 6 371 000 is regenerated '
+             'from _const.py and re-proved.',
+        note='Float rounding and the 2 cm figure are measured, not proved (correspondence is bit-level up to 1e-9; oracle = unit-vector rotation / '
+             'atan2 of cross and dot norms, independent of the haversine formulas). Known finding: within 1 m of the poles the 2 cm clause fails.',
+        technique='Lean 4 proof over a generic numeric class (real instance for proofs, Float instance in the driver) + differential correspondence on structured cases + independent geodesic oracle',
+        design='§6 C07'),
+    'C09': dict(
+        text='Lean 4 theorems: vertex bounds are the min/max box (every vertex inside, each side attained), multi-shape/collection bounds are the '
+             'min/max box of all members vertices, the rectangle built from in-range bounds has exactly those bounds; centroid + farthest-vertex '
+             'circles enclose every listed vertex for any distance function; ellipse/ring/circle circles enclose every generated vertex; the box '
+             'circle passes through its northern corners (partial, F09a known). Welzl: for every sequence of random draws the result is the '
+             'trivial circle of <= 3 input points; conditional on an abstractly stated Welzl lemma it is draw-independent and enclosing.',
+        note='Welzl lemma on the sphere, minimality and seed-independence are validated numerically (brute-force 2-/3-point search, all seeds 0..63 / '
+             '0..1023, random draws recorded and replayed through the model); the 1 % clause against a dense-sampling oracle. Known findings: '
+             'GeoBox circle (F09a), wedge bounds across the antimeridian (F09c).',
+        technique='Lean 4 proof (exact rational bounds; real circles; induction over the Welzl recursion with an explicit choice sequence) + exact/float differential correspondence + independent oracles',
+        design='§6 C09'),
+    'C11': dict(
+        text='Lean 4 theorems over a model of _decode_niemeyer / _coord_to_niemeyer / _get_niemeyer_subhashes / niemeyer_to_geobox / _get_surrounding: '
+             'for bases 16/32/64 and every coordinate, length and hash - length, alphabet, decoded cell contains the coordinate, prefix hierarchy, '
+             'centre/interior re-encoding, children tile the parent (count, inside, cover, disjoint), foreign characters rejected, neighbours are '
+             'the adjacent grid cells, binary64 exactness of the bisection; the tables are regenerated from the live module on every run and the '
+             'table theorems re-checked by the kernel (decide +kernel). The cell-to-box clause is partial (east edge < 180) with a proved '
+             'counter-witness (F11a, known finding).',
+        note='Trusted: Lean kernel + Mathlib, the hand-written model tied to geohash.py by exhaustive correspondence to depth 3/2(3)/2 and ~1e5 (1e6 '
+             'thorough) random lines; Coordinate normalisation is the C08 model; float arithmetic is modelled by exact rationals (justified by '
+             'float_exact_bound).',
+        technique='Lean 4 proof (codec laws over generated tables) + translator for the tables + exhaustive/random differential correspondence + closed-form Fraction oracle',
+        design='§6 C11'),
+    'C12': dict(
+        text='Lean 4 theorems over the work-list loop with an arbitrary pop schedule: result = reachable set (order independent), sound, complete for '
+             'neighbour-connected touched sets, closed, terminating on every finite grid (instantiated for the geohash grid); multi = union; '
+             'hash_collection = aggregation of exactly the shapes containing each cell, in order. Tied to NiemeyerHasher by measuring touches / '
+             '_get_surrounding per shape, flooding them in the model and comparing with hash_shape; an exact integer-grid oracle independently '
+             'checks that the cells are exactly those the shape touches.',
+        note='Not proved: connectedness of touched cells (geometry) and the per-cell predicate (C02); curved shapes are claimed for their polygon form, '
+             'the analytic sliver is known finding F12b; H3 clauses are glue checks against the h3 library (np- streams).',
+        technique='Lean 4 proof (invariant/refinement of the flood fill, termination measure, dict semantics) + measured-table correspondence + exact geometric oracle',
+        design='§6 C12'),
+    'C15': dict(
+        text='Lean 4 theorems over an executable model of every __eq__/__hash__ (rotation loop, hole edge sets, set-based multi equality computed '
+             'through member hashes, NotImplemented fall-through): equality is an equivalence relation for every kind, equal shapes have equal hash '
+             'keys, polygons and hole rings rewritten from any vertex or winding and permuted multi-shapes are equal, shapes differing in any '
+             'defining field, hole list or dt are unequal; a heap model of copy()/pickle proves equal fields and isolation for all mutator '
+             'sequences. Tied to the code by exhaustive small worlds (all kinds x fields, all rewrites of small outlines and hole rings, all '
+             'member permutations <= 4), seeded random pairs through ==, !=, hash, set and dict, and copy/pickle x every mutator.',
+        note='Trusted: Lean kernel and Mathlib; floats as exact rationals (no NaN); dyadic grids so the orientation test is exact; CPython hash is a '
+             'function of value and a frozenset hash a function of the multiset of element hashes; vertices of curved holes and wedge centroids '
+             'enter as data; hole objects shared by copy() are treated as immutable values (I8).',
+        technique='Lean 4 proof (equivalence, eq => hash, frame/separation invariants over a heap) + exhaustive/random differential correspondence + independent canonical-form oracle',
+        design='§6 C15'),
+    'C16': dict(
+        text='Lean 4 theorems over a state machine (heap of property/hole/vertex cells, memo slots stamped with their inputs, reads, the four API '
+             'mutators in both inplace modes): for every history every observation of the live shape, memoised ones and volume included, equals '
+             'that of a freshly constructed shape with the same fields; reads change nothing on receiver or argument and repeat their answers; '
+             'inplace=False leaves the original untouched and returns what the in-place call would produce; the mutators refine a value-level '
+             'spec. Tied to the code by systematic and random histories on all ten kinds, with the full observation vector compared after every '
+             'step against model, spec and a fresh twin.',
+        note='The theorems hold for every memoisation table; the driver table is tied for argument-free reads. Derived observations are compared with '
+             'a fresh twin and raw-vertex bounds, not recomputed; volume is recomputed bit-exactly. Direct hole/vertex-list manipulation is '
+             'outside the histories.',
+        technique='Lean 4 proof (invariant by induction over histories, refinement to field values) + differential correspondence over operation histories with a watchdog',
+        design='§6 C16'),
     'C06': dict(
         text='Lean 4 theorems: every TimeInterval operator of the model equals the dense-time set model '
              '[start,end) / {start} for all intervals and instants (membership, subset, superset, disjoint, '
